@@ -49,6 +49,16 @@ pub fn exec(tok: &[&str]) -> String {
                 _ => panic!("bad-op"),
             }
         }
+        // ---- NTT over Z_q (C11) -------------------------------------------------------------------
+        "felt_fft" => ints(&vh::felt_fft(&parse_ints::<u32>(tok[1]))),
+        "felt_ifft" => ints(&vh::felt_ifft(&parse_ints::<u32>(tok[1]))),
+        "ntt_roundtrip" => ints(&vh::felt_ifft(&vh::felt_fft(&parse_ints::<u32>(tok[1])))),
+        "ntt_mul" => {
+            let a = vh::felt_fft(&parse_ints::<u32>(tok[1]));
+            let b = vh::felt_fft(&parse_ints::<u32>(tok[2]));
+            ints(&vh::felt_ifft(&vh::felt_hadamard_mul(&a, &b)))
+        }
+        "ref_negacyc" => ints(&crate::c11::schoolbook(&parse_ints::<u64>(tok[1]), &parse_ints::<u64>(tok[2]))),
         _ => panic!("bad-op {}", tok[0]),
     }
 }
